@@ -11,6 +11,10 @@ open ZapVerif ZapVerif.GoMini ZapVerif.Gen.TransCores
 
 @[simp] theorem unCE_ceV (o : Option (List Val)) : unCE (ceV o) = some o := by cases o <;> rfl
 
+@[simp] theorem lenVal_ceV_none : lenVal (ceV none) = .ok (.int 0) := id rfl
+@[simp] theorem lenVal_ceV_some (cs : List Val) : lenVal (ceV (some cs)) = .ok (.int 1) := id rfl
+@[simp] theorem indexVal_ceV (cs : List Val) : indexVal (ceV (some cs)) (.int 0) = .ok (.list cs) := id rfl
+
 @[simp] theorem ext_en1 (P : Par) (l : Int) : ext P "LevelEnabler.Enabled" [.int l] = some [.bool (P.en l)] := id rfl
 @[simp] theorem ext_en2 (P : Par) (v : Val) (l : Int) : ext P "LevelEnabler.Enabled" [v, .int l] = some [.bool (P.en l)] := by
   cases v <;> rfl
